@@ -254,11 +254,11 @@ EStepOf(ph, p, idx, t1(_, _, _), t2(_, _, _), meansmall) ==
     /\ acc' = [a1 |-> Tup(Len(scn.m), LAMBDA c : SumL(t1(scn, p, c), idx)),
                a2 |-> Tup(Len(scn.m), LAMBDA c : SumL(t2(scn, p, c), idx))]
     /\ UNCHANGED <<scn, new>> /\ UNCHANGED cvars
-EStepV == LET p == PostV(scn) IN
+EStepV == phase = "start" /\ LET p == PostV(scn) IN
           EStepOf("eV", p, Is(scn), A1TermsV, A2TermsV, \A i \in Is(scn) : Small(p.mean[i], By))
-EStepU == LET p == PostU(scn) IN
+EStepU == phase = "start" /\ LET p == PostU(scn) IN
           EStepOf("eU", p, Hs(scn), A1TermsU, A2TermsU, \A h \in Hs(scn) : Small(p.mean[h], By))
-EStepD == LET p == PostD(scn) IN
+EStepD == phase = "start" /\ LET p == PostD(scn) IN
           EStepOf("eD", p, Is(scn), A1TermsD, A2TermsD,
                   \A i \in Is(scn), c \in Cs(scn) : Small(p.mean[i][c], By))
 \* finalize_v / finalize_u: the posterior means once more
@@ -274,9 +274,9 @@ MStepOf(from, to, inverted) ==
     /\ LET w == Tup(Len(scn.m), LAMBDA c : IF inverted THEN Div(acc.a1[c], acc.a2[c]) ELSE Div(acc.a2[c], acc.a1[c]))
        IN (\A c \in Cs(scn) : Small(w[c], Ba)) /\ new' = w
     /\ UNCHANGED <<scn, post, acc>> /\ UNCHANGED cvars
-MStepV == MStepOf("eV", "mV", FALSE)
-MStepU == MStepOf("eU", "mU", FALSE)
-MStepD == MStepOf("eD", "mD", "JFA_D_MSTEP_INVERTED" \in Dev)
+MStepV == phase = "eV" /\ MStepOf("eV", "mV", FALSE)
+MStepU == phase = "eU" /\ MStepOf("eU", "mU", FALSE)
+MStepD == phase = "eD" /\ MStepOf("eD", "mD", "JFA_D_MSTEP_INVERTED" \in Dev)
 NNext == EStepV \/ MStepV \/ FinalizeV \/ EStepU \/ MStepU \/ FinalizeU \/ EStepD \/ MStepD
 NSpec == NInit /\ [][NNext]_vars
 
